@@ -2,8 +2,8 @@
 From Coq Require Import ZArith List.
 From Coq Require Extraction.
 From Coq Require Import ExtrOcamlBasic.
-From C05 Require Import Model Checker ExtModel.
+From C05 Require Import Model Checker ExtModel GF2Model QadicModel.
 Extraction Language OCaml.
 Cd "ocaml".
-Extraction "model.ml" mk_tables dump_pol2log dump_plus1 op1 op2 op3 arr dot tables_ok fg_ok ext_opZ.
+Extraction "model.ml" mk_tables dump_pol2log dump_plus1 op1 op2 op3 arr dot tables_ok fg_ok ext_opZ gf2_opZ q_initZ q_maxn.
 Cd "..".
